@@ -195,8 +195,8 @@ stays the same -/
 theorem root_ext (hf : HashFn α H) (s s' : Segment α H) (ext : HashExt s s') (size : Nat)
     (bm : Option (Nat → Bool)) (o : Option H) (h : s.root hf size bm = .ok o) :
     s'.root hf size bm = .ok o := by
-  unfold Segment.root at h ⊢
-  rw [ext.1]
+  obtain ⟨hne, h⟩ := root_ok_rootWith hf s size bm o h
+  rw [root_of_nonempty hf s' size bm (by rw [ext.1]; exact hne), ext.1]
   exact rootWith_ext hf s s' ext size bm _ _ _ o h
 
 /-! ### `first_unpruned_parent` -/
